@@ -113,6 +113,14 @@ class Labeller:
                         for ct, _, _ in self.inter.ret_cases(cb):
                             out.extend(self.unlabelled(ct, depth - 1, env))
                 return out
+            # `iter.try_for_each(|x| ..)` / `try_fold`: the error it returns is the one its closure returned
+            if sh in ("Iterator::try_for_each", "Iterator::try_fold") and args and strip(args[-1])[0] == "closure":
+                cb = self.facts.body(strip(args[-1])[1])
+                if cb is not None:
+                    out = []
+                    for ct, _, _ in self.inter.ret_cases(cb):
+                        out.extend(self.unlabelled(ct, depth - 1, env))
+                    return out
             # closure invocation
             if sh in ("FnOnce::call_once", "Fn::call", "FnMut::call_mut") and args and strip(args[0])[0] == "closure":
                 cb = self.facts.body(strip(args[0])[1])
